@@ -142,6 +142,13 @@ RULES = [
     (r"smooth:non_uniform_savgol:const:", "equivalent", "range(-1, n): one more iteration whose writes are overwritten by the regular ones"),
     (r"smooth:smooth_interpolate_savgol:", "outside", "the property states that NaN gaps are filled with FINITE values (checked); which interpolant fills them is not stated; shape[0] vs [-1], [0] of np.where"),
     (r"smooth:lp:", "outside", "corner of the smoother's low-pass (design constant); shape[0] vs [-1] of a 1-D series"),
+    # ---- ibldsp.spiketrains
+    (r"spiketrains:_spikes_venn:const:L(111|115)", "outside", "default bin width / default chunk length (the property: every spike in exactly one region regardless of chunking, checked for chosen and default values)"),
+    (r"spiketrains:_spikes_venn:const:L120", "equivalent", "one more (empty) chunk"),
+    (r"spiketrains:_spikes_venn:(const|arith):L12[45]", "equivalent", "more region names / a longer accumulator than regions: the extra entries stay 0 and are not reported"),
+    (r"spiketrains:_spikes_venn:argswap:L153", "equivalent", "bin sizes exchanged inside the 2-D count of one chunk: the peeling works on the same multiset of spikes"),
+    (r"spiketrains:_spikes_venn:const:L15[89]", "equivalent", "lower bin edge -1 instead of 0 for non-negative samples / channels"),
+    (r"spiketrains:spikes_venn[23]:argswap:", "outside", "INCONCLUSIVE, not survived: fs and num_channels exchanged (30000 'channels') make the 2-D count allocate gigabytes, the worker is killed by the kernel and the check exits 2 (inconclusive) - it does not report 'held'; reproduced on re-run"),
     # ---- ibldsp.waveforms
     (r"waveforms:compute_spike_features:const:L642", "equivalent", "1000 vs 1001 / 999 in the conversion of the recovery offset: absorbed by the rounding to whole samples"),
     (r"waveforms:compute_spike_features:kwdrop:L646", "gap-closed", "recovery_slope checked against its definition at the caller's sampling rate (C14 `features:recovery_slope`); re-run: caught"),
